@@ -56,6 +56,12 @@ Theorem C11_reader_inv_reachable : forall d st st', adv d st st' -> RInv d st ->
 Proof. exact rinv_adv. Qed.
 Theorem C11_reader_never_bad : forall d st, RInv d st -> get_char d st <> GBad.
 Proof. exact rinv_not_bad. Qed.
+Example C11_reader_example :
+  let d := split_lines example_text in
+  let st := {| r_pos := (0, 7); r_idx := 8 |} in
+  RInv d st /\ run d [97; 32; 60; 61; 32; 34; 233] rstart st /\ get_char d st = GChar 34 /\
+  slice_of_text example_text (0, 0) (0, 7) = [97; 32; 60; 61; 32; 34; 233].
+Proof. exact reader_example. Qed.
 (* the characters popped between two reader states are the text between their two UTF-16 positions
    (slice16: lines split at LF/CR/CRLF, columns in UTF-16 units; defined without the reader) *)
 Theorem C11_consumed_is_slice : forall s l st st',
@@ -170,6 +176,7 @@ Print Assumptions C11_reader_inv_start.
 Print Assumptions C11_reader_inv_preserved.
 Print Assumptions C11_reader_inv_reachable.
 Print Assumptions C11_reader_never_bad.
+Print Assumptions C11_reader_example.
 Print Assumptions C11_consumed_is_slice.
 Print Assumptions C11_bit_string_value_at.
 Print Assumptions C11_comments_between.
